@@ -450,6 +450,24 @@ func c11Once(c *mon.Ctx) {
 			r.SetConfiguration(mustConfig(nd.Text))
 			c11Judge(c, o, r, nd.Text, base, "neutral document '"+nd.Label+"' on "+o.Name)
 			c.R.Count("neutral_runs", 1)
+			// "changes no verdict" is a statement about the UNCONFIGURED behaviour: every lint - the configurable ones
+			// too, whose section the example spells out - must give exactly the no-configuration result. (c11Judge
+			// alone compares a configurable lint with a fresh instance configured from the same section, which agrees
+			// with itself when the example prints a value that is not the effective default.)
+			r2 := c11All()
+			r2.SetConfiguration(mustConfig(nd.Text))
+			if fo := o.Reparse(); fo != nil {
+				if rs, pv, _ := fo.Lint(r2); pv == nil && rs != nil {
+					day := today()
+					for _, df := range dropClock(day, mon.Diff(base, mon.SnapOf(rs), false, false)) {
+						name := strings.SplitN(df, ":", 2)[0]
+						in := inputs(o)
+						in["config.toml"] = []byte(nd.Text)
+						c.V("neutral-document-changes-verdict|"+nd.Label+"|"+name, fmt.Sprintf("loading the %s document changes a verdict: %s (on %s)", nd.Label, clipS(df, 200), o.Name), name, in, nil)
+					}
+					c.R.Count("neutral_full_comparisons", 1)
+				}
+			}
 		}
 		r := c11All()
 		r.SetConfiguration(lint.NewEmptyConfig())
